@@ -146,6 +146,23 @@ def trace(B):
         return explore(run, maxpaths=16)
 
 
+def trace_refit(B):
+    """the same bootstrapper object fitted twice"""
+    seed = PNum(z3.Int("seed"))
+    names = {"np": NPB(), "xr": ldom.XRL(), "EOF": MemberEOF, "trange": ldom.range_l}
+
+    def run():
+        model = ModelStub()
+        b = bmod.EOFBootstrapper(n_bootstraps=B, seed=seed)
+        b.fit(model)
+        first = (len(ctx().notes.get("gens", [])), len(ctx().notes.get("members", [])))
+        b.fit(model)
+        return b, model, seed, first
+
+    with patched_globals([bmod], names):
+        return explore(run, maxpaths=16)
+
+
 def literal_scan():
     hits = []
     tree = ast.parse(open(bmod.__file__).read())
@@ -239,6 +256,35 @@ def deductive(res, agg, tier="quick"):
             st("the bootstrapper keeps the model's preprocessor (so results are back-transformed like the model's)", b.preprocessor is model.preprocessor)
         if nret == 0:
             agg.vc(FN, "has-returning-path", struct_vc(False, "vacuity guard"), cfg)
+    # ---- a second fit of the same object starts its own generator from the seed (same seed => same resamples, fit after fit)
+    B = 2
+    cfg = "second fit of the same bootstrapper"
+    try:
+        paths = trace_refit(B)
+    except PathLimit as e:
+        res.undecided_reasons.append(f"{FN}[{cfg}]: {e}")
+        paths = []
+    res.paths += len(paths)
+    nret = 0
+    for pth in paths:
+        if pth.kind == "unsupported":
+            agg.vc(FN, "within-supported-subset", {"status": "undecided", "residue": f"{pth.exc} {pth.tb[-3:]}"}, cfg)
+            continue
+        if pth.kind != "return":
+            agg.vc(FN, "does not raise on a fitted model", struct_vc(False, f"{pth.exc!r} {pth.tb[-3:]}"), cfg)
+            continue
+        nret += 1
+        b, model, seed, (g1, m1) = pth.value
+        gens, members = pth.ctx.notes.get("gens", []), pth.ctx.notes.get("members", [])
+        inp = model.data["input_data"]
+        second = members[m1:]
+        ok = (len(gens) > g1 and len(second) == B and all(m.fitted is not None for m in second)
+              and all(m.fitted[0].val[:3] == ("take", S, ("draw", gens[-1].no, i)) for i, m in enumerate(second))
+              and gens[-1].seed is seed and gens[-1].no >= g1 and len(gens[-1].draws) == B)
+        agg.vc(FN, "every fit draws its resamples from the start of a generator created from the user's seed during that fit", struct_vc(ok,
+               f"generators {[(g.no, len(g.draws)) for g in gens]}, second-fit inputs {[m.fitted and m.fitted[0].val[:3] for m in second]}"), cfg)
+    if paths and nret == 0:
+        agg.vc(FN, "has-returning-path", struct_vc(False, "vacuity guard"), cfg)
 
 
 # ---------------------------------------------------------------- bounded
@@ -343,6 +389,16 @@ def eval_case(c):
                     break
     if n >= 30 and not anydup:
         msgs.append("no member resample contains a repeated sample: not a with-replacement resample")
+    # a second fit of the same bootstrapper object reproduces the first
+    old_eof = bmod.EOF
+    bmod.EOF = RecEOF
+    _Rec.fits = []
+    try:
+        bs.fit(model)
+    finally:
+        bmod.EOF = old_eof
+    if not all(np.array_equal(a.values, b_.values) for a, b_ in zip(fits, _Rec.fits)):
+        msgs.append("a second fit of the same seeded bootstrapper used different resamples")
     # reproducibility
     bs2, fits2 = _boot(model, B, c["bseed"])
     if not all(np.array_equal(a.values, b_.values) for a, b_ in zip(fits, fits2)):
